@@ -369,9 +369,9 @@ O("C14.vtodoify", "C14", "h_C14.c", "h_C14_vtodoify",
 
 # ------------------------------------------------------------------ C09 / C16 fillers
 P("C09", level="proof",
-  level_text="Function and loop contracts on the real code. Fillers of evrrul.c - rrul_fill_dly, _wly, _Hly, _Mly (quick) and _Sly (thorough only: 24 min) - with iterators and calendar kernels replaced by the contracts C19 / C01.k discharge and every loop under an in-place inductive loop contract incl. (lexicographic) decreases clauses: for every valid DTSTART, every well-formed BYxxx container state, INTERVAL up to 64, any COUNT/UNTIL all array accesses and shifts are in bounds (incl. the BYHOUR x BYMINUTE x BYSECOND enumeration into the 128-slot cache), at most what was asked for is returned, every loop terminates. make_enum (time-of-day arrays, C09.make_enum). The parser side of the assume/guarantee pair: snarf_rrule hands the fillers only well-formed containers with values inside the ranges the filler contracts assume, and an INTERVAL in 1..INT_MAX, whatever numbers the text holds (C09.snarf_rrule.<KEY>, 11 keys). Lookup/iteration termination: C07.find_trno, C19.collect_*.",
-  level_note="Trusted: CBMC semantics and DFCC loop-contract instrumentation; libc number reading (stubs return an arbitrary long). Bound: INTERVAL <= 64 in the filler obligations (the carries divide INTERVAL-sized sums; wide operands are out of reach). Not covered: rrul_fill_yly/mly and their helpers (fill_yly_*, fill_mly_*, clr_poss, shift), the Hijri scales inside the fillers, _ical_pull.",
-  not_covered=["rrul_fill_yly / rrul_fill_mly and the fill_yly_*/fill_mly_* helpers, clr_poss, shift", "fillers on a non-Gregorian SCALE", "INTERVAL above 64", "the line-level parser _ical_pull"])
+  level_text="Function and loop contracts on the real code. Fillers of evrrul.c - rrul_fill_dly, _wly, _Hly, _Mly (quick) and _Sly (thorough only: 24 min) - with iterators and calendar kernels replaced by the contracts C19 / C01.k discharge and every loop under an in-place inductive loop contract incl. (lexicographic) decreases clauses: for every valid DTSTART, every well-formed BYxxx container state, INTERVAL up to 1000 (dly, Hly, Mly) / 100 (wly) / 64 (Sly), any COUNT/UNTIL all array accesses and shifts are in bounds (incl. the BYHOUR x BYMINUTE x BYSECOND enumeration into the 128-slot cache), at most what was asked for is returned, every loop terminates; in dly and wly one step advances the day cursor by exactly INTERVAL resp. 7*INTERVAL days (functional carry invariant). make_enum (time-of-day arrays, C09.make_enum). The parser side of the assume/guarantee pair: snarf_rrule hands the fillers only well-formed containers with values inside the ranges the filler contracts assume, and an INTERVAL in 1..INT_MAX, whatever numbers the text holds (C09.snarf_rrule.<KEY>, 11 keys). Lookup/iteration termination: C07.find_trno, C19.collect_*.",
+  level_note="Trusted: CBMC semantics and DFCC loop-contract instrumentation; libc number reading (stubs return an arbitrary long). Bound: INTERVAL <= 1000 / 100 / 64 in the filler obligations (the invariants carry explicit bounds on the overflowing day cursor; the parser admits up to INT_MAX). Not covered: rrul_fill_yly/mly and their helpers (fill_yly_*, fill_mly_*, clr_poss, shift), the Hijri scales inside the fillers, _ical_pull.",
+  not_covered=["rrul_fill_yly / rrul_fill_mly and the fill_yly_*/fill_mly_* helpers, clr_poss, shift", "fillers on a non-Gregorian SCALE", "INTERVAL above 1000 (dly, Hly, Mly) / 100 (wly) / 64 (Sly)", "exactness of the Hly/Mly/Sly step (bounds and termination only)", "the line-level parser _ical_pull"])
 P("C16", level="proof",
   level_text="Same filler obligations as C09 with the post-conditions of this property: every occurrence a covered filler (dly, wly, Hly, Mly; Sly in the thorough tier) writes lies within [DTSTART, UNTIL], never more than COUNT or than asked for; Sly additionally strictly increasing (ghost witness pair, inductive invariant over the append-only output) and real date-times. refill: 63 delivered + seed held back, COUNT down by exactly the number delivered, every slot corrected by its zone-offset difference (C16.refill); the proto event of a rule is DTSTART in UTC (C16.make_evrrul). Across refills the order rests on echs_instant_sort (C20).",
   level_note="Trusted as for C09. Not covered: strict order inside the dly/wly/Hly/Mly fillers (bounds only), yearly/monthly fillers, SHIFT/BYEASTER/SCALE extensions.",
